@@ -442,6 +442,16 @@ class Pass1(CompilePass):
                 node=node)
         self.compilation.data[self._last_label].extend(node.items)
 
+        # the data section stores counts and lengths in 16 bits
+        if len(self.compilation.data[self._last_label]) > 65535 or \
+           any(isinstance(item, str) and len(item) > 32767
+               for item in node.items):
+            raise CompileError(
+                EC.INVALID_DIMENSIONS,
+                'Too much DATA (more than 65535 items in a row of DATA '
+                'statements, or an item longer than 32767 characters)',
+                node=node)
+
 
 class Pass2(CompilePass):
     # This pass does the following:
